@@ -158,3 +158,41 @@ func (r *verifC11Reader) Read(p []byte) (int, error) {
 	return 0, io.EOF
 }
 func (r *verifC11Reader) Close() error { return nil }
+
+// the queued (asynchronous) send path on the tracking allocator: frames wait
+// in the send queue while the drainer goroutine writes the one in front; the
+// connection is closed, or a write fails, at any point of the drain. Every
+// frame buffer has exactly one owner at a time: the queue slot or the drainer.
+func verifHarness_C11_ws_send_queue_close_during_drain() {
+	verifBound("queued_messages", 3)
+	verifBound("preemptions", 2)
+	tr := verifNewTracker()
+	verifPoolMode(0) // (the owner question does not depend on which free buffer the pool hands out)
+	ep := verifNewEndpoint(false, false, 0, tr)
+	ep.u.BlockingModSendQueueInitSize = 2
+	ep.u.BlockingModSendQueueMaxSize = 0
+	ep.c = newConn(ep.u, ep.fake, "", false, true, false)
+	ep.c.Execute = func(f func()) bool { f(); return true }
+	ep.fake.yield = true // every write on the wire is a scheduling point
+	ep.fake.failAt = verifChoose("write_fail_at", 4) - 1
+	closer := verifChoose("closed_during_drain", 2) == 1
+	verifSched(true, 2)
+	verifGo(func() {
+		for i := 0; i < 3; i++ {
+			_ = ep.c.WriteMessage(BinaryMessage, []byte{byte('a' + i), byte('a' + i)})
+		}
+	})
+	if closer {
+		verifGo(func() { ep.c.CloseAndClean(nil) })
+	}
+	verifJoin()
+	for i := 0; i < verifTimerCount(); i++ {
+		if verifTimerArmed(i) {
+			verifFireTimer(i)
+			verifJoin()
+		}
+	}
+	ep.c.CloseAndClean(nil)
+	verifAssertD(tr.frees <= tr.mallocs, "no-more-frees-than-allocations", "send-queue")
+	verifAssert(false, "witness")
+}
